@@ -22,6 +22,30 @@ PROPS = {
         "exhaustive": False,
         "label": "partial: file-level pipeline is a theorem; tree/path-mapping level by end-to-end oracle",
     },
+    "C09": {
+        "components": ["delete"],
+        "trusted_base": [KERNEL, EXTRACT, HARNESSTB, FSNOTE,
+                         "modelled, not verified: io/fs.WalkDir over os.Root.FS() (lexical order, SkipDir) as a recursive walk over a tree; RemoveAll as subtree removal"],
+        "assumptions": [
+            "listed = membership by name in the sender's sorted list (find_is_membership); protected = the user's plain-name exclude rules",
+            "type conflicts (file <-> directory at the same path) are skipped by the end-to-end oracle (the delete pass runs before the generator replaces them)",
+        ],
+        "rule": "unit: real deleteFiles on generated destination trees (2..7 entries per directory in every sort position incl. non-ASCII names, nesting 3, files / directories / symlinks) x listed subsets (ancestor-closed and not) x 0..3 exclude/include rules x I/O-error flag x dry-run x missing top directory, surviving entry set compared with the model and with the property's definition. end to end: pull / push / local sessions with -a --delete [--exclude], the sender's I/O-error flag forced by a missing source argument, --delete absent; non-trivial = some but not all entries removed",
+        "exhaustive": False,
+        "label": "full",
+    },
+    "C13": {
+        "components": ["filter"],
+        "trusted_base": [KERNEL, EXTRACT, HARNESSTB, FSNOTE,
+                         "modelled, not verified: fs.WalkDir as a recursive walk; filepath.Base for slash-less patterns"],
+        "assumptions": [
+            "plain-name rules only; a rule with a trailing slash is matched like the bare name (the implementation does not restrict it to directories) and is excluded from the oracle",
+            "wildcard sessions are run in pull/push/local only; an error while the peer is still writing over a zero-capacity pipe belongs to C18",
+        ],
+        "rule": "unit: random lists of 0..4 rules (exclude / include / unprefixed, names incl. paths with '/', trailing slash, wildcards) x names at several depths through the real parser+matcher vs model and reference semantics; walk: real SendFileList over generated trees with 0..4 rules vs the model's select and the reference; end to end: pull / push / local / library-pull sessions with rules given as --exclude, --include and -f, wildcard rules expected to fail with an error. non-trivial = at least two rules / one rule and more than three entries",
+        "exhaustive": False,
+        "label": "full for plain-name rules",
+    },
     "C12": {
         "components": ["update"],
         "trusted_base": [KERNEL, EXTRACT, HARNESSTB, GEN, MD4NOTE, FSNOTE],
